@@ -45,6 +45,10 @@ func newSVGContextReader(rootText io.Reader, baseURL string, urlFetcher utils.Ur
 	return newSVGContext(root, baseURL, urlFetcher)
 }
 
+// maximum depth of the SVG tree : an unbounded nesting of elements
+// would exhaust the stack
+const maxTreeDepth = 1000
+
 // newSVGContext converts from the html representation to an internal,
 // simplified form, suitable for post-processing.
 //
@@ -72,12 +76,18 @@ func newSVGContext(root *html.Node, baseURL string, urlFetcher utils.UrlFetcher)
 	out.inUseIDs = make(utils.Set)
 
 	// may return nil to discard the node
-	var buildTree func(node *html.Node, parentAttrs nodeAttributes) *cascadedNode
+	var buildTree func(node *html.Node, parentAttrs nodeAttributes, depth int) *cascadedNode
 
-	buildTree = func(node *html.Node, parentAttrs nodeAttributes) *cascadedNode {
+	buildTree = func(node *html.Node, parentAttrs nodeAttributes, depth int) *cascadedNode {
 		// text is handled by the parent
 		// style elements are no longer useful
 		if node.Type != html.ElementNode || node.DataAtom == atom.Style {
+			return nil
+		}
+
+		// the tree is built, processed and drawn by recursive functions :
+		// elements nested too deeply are discarded
+		if depth > maxTreeDepth {
 			return nil
 		}
 
@@ -120,7 +130,7 @@ func newSVGContext(root *html.Node, baseURL string, urlFetcher utils.UrlFetcher)
 
 		// recurse
 		for child := node.FirstChild; child != nil; child = child.NextSibling {
-			if childSVG := buildTree(child, childAttrs); childSVG != nil {
+			if childSVG := buildTree(child, childAttrs, depth+1); childSVG != nil {
 				nodeSVG.children = append(nodeSVG.children, childSVG)
 			}
 		}
@@ -137,7 +147,7 @@ func newSVGContext(root *html.Node, baseURL string, urlFetcher utils.UrlFetcher)
 		return nodeSVG
 	}
 
-	out.root = buildTree((*html.Node)(svgRoot), nil)
+	out.root = buildTree((*html.Node)(svgRoot), nil, 0)
 
 	out.inheritDefs()
 
